@@ -607,7 +607,12 @@ func rulesNewickWriter(c *Ctx, r *Report) {
 		}
 		switch {
 		case cl.Call.StaticCallee() == w:
-			order = append(order, "tree")
+			// the node written is the receiver itself, not a copy or another node
+			if ni < len(cl.Call.Args) && len(mt.Params) > 0 && cl.Call.Args[ni] == ssa.Value(mt.Params[0]) {
+				order = append(order, "tree")
+			} else {
+				order = append(order, "tree of another node")
+			}
 		case qname(cl.Call.StaticCallee()) == "(*bytes.Buffer).WriteByte":
 			k, _ := cInt(constVal(cl.Call.Args[1]))
 			order = append(order, "byte"+byteStr(int(k)))
